@@ -1,7 +1,7 @@
 #!/bin/bash
 # usage: scratch.sh <name> <command...>   — run a command with VERIF_REPO pointing at a scratch copy of /repo
 # the scratch copy lives under ${VERIF_SCRATCH:-/var/tmp} and is removed afterwards.
-# The mutation is given through env SCRATCH_SED="file|sed-expr;;file|sed-expr" or SCRATCH_PATCH=<diff file>
+# The mutation is given through env SCRATCH_SED="file|sed-expr@@file|sed-expr" or SCRATCH_PATCH=<diff file>
 set -u
 name=$1; shift
 base=${VERIF_SCRATCH:-/var/tmp}/verif-scratch-$name-$$
@@ -11,7 +11,7 @@ if [ -n "${SCRATCH_PATCH:-}" ]; then
   (cd "$base" && patch -p1 -s < "$SCRATCH_PATCH") || { echo "PATCH-FAILED"; rm -rf "$base"; exit 3; }
 fi
 if [ -n "${SCRATCH_SED:-}" ]; then
-  IFS=';;' read -ra parts <<< "$SCRATCH_SED"
+  mapfile -t parts < <(printf '%s\n' "${SCRATCH_SED//@@/$'\n'}")
   for p in "${parts[@]}"; do
     [ -z "$p" ] && continue
     f=${p%%|*}; e=${p#*|}
